@@ -391,7 +391,7 @@ func c02main(c *Ctx) {
 		var sel []int
 		if ws := d.perLevel[sev]; len(ws) > 0 {
 			sel = ws
-		} else if errorClass(sev) {
+		} else if builtinErrorClass(sev) { // no custom level is registered in this process
 			sel = d.errs
 		} else {
 			sel = d.normal
@@ -509,4 +509,13 @@ func wholeRecord(f Format, p []byte, id string, blank, testing bool) string {
 		}
 	}
 	return ""
+}
+
+// builtinErrorClass: the severities that go to the error writers when nothing is registered.
+func builtinErrorClass(l slog.Level) bool {
+	switch l {
+	case slog.PanicLevel, slog.FatalLevel, slog.ErrorLevel, slog.WarnLevel, slog.FailLevel:
+		return true
+	}
+	return false
 }
